@@ -15,7 +15,7 @@ func init() { suites["C20"] = Suite{Gen: genC20, Exec: execC20} }
 var c20Values = []string{"", "0", "1", "-1", "+5", "12", "007", "9223372036854775807", "9223372036854775808",
 	"-9223372036854775808", "-9223372036854775809", "18446744073709551615", "18446744073709551616",
 	"1.5", "-0", "1e3", "1e400", "NaN", "inf", "-Inf", "0x10", "1_000", "true", "false", "T", "t", "TRUE", "True", "F",
-	"yes", " 1", "1 ", "a\x00b", "\xff\xfe", "{id}", "abc", "3.4028235e38", "4.9e-324", "0.1", "١٢"}
+	"-", "+", "+0", "--1", "+-1", "-+1", "1-", "٣", "yes", " 1", "1 ", "a\x00b", "\xff\xfe", "{id}", "abc", "3.4028235e38", "4.9e-324", "0.1", "١٢"}
 
 func errText(err error) string {
 	if err == nil {
@@ -66,6 +66,14 @@ func genC20(r *rand.Rand, w *W) [][]string {
 			ops = append(ops, []string{"del", pick(r, keys)})
 		case x < 6 && r.Intn(3) == 0:
 			ops = append(ops, []string{"reset"})
+		case x < 6 && r.Intn(2) == 0:
+			// mutations that keep the size, with no enumeration in between, framed by two enumerations
+			ops = append(ops, []string{"range"}, []string{"qdel", pick(r, keys)}, []string{"qset", pick(r, keys), pick(r, vals)})
+			if r.Intn(2) == 0 {
+				ops = append(ops, []string{"qdel", pick(r, keys)}, []string{"qset", pick(r, keys), pick(r, vals)})
+			}
+			ops = append(ops, []string{"range"})
+			w.Count("quiet-mutations")
 		case x < 7 && r.Intn(2) == 0:
 			ops = append(ops, []string{"cycle"})
 		default:
@@ -83,7 +91,7 @@ func execC20(ops [][]string, w *W) {
 	// strconv table for every value that can be looked up (Go's own answers)
 	seen := map[string]bool{}
 	for _, o := range ops {
-		if o[0] == "set" && !seen[o[2]] {
+		if (o[0] == "set" || o[0] == "qset") && !seen[o[2]] {
 			v := o[2]
 			seen[v] = true
 			i, ie := strconv.ParseInt(v, 10, 64)
@@ -116,6 +124,14 @@ func execC20(ops [][]string, w *W) {
 			w.R(obsState()...)
 		case "reset":
 			ctx.Reset()
+			w.R(obsState()...)
+		case "qset":
+			ctx.Set(o[1], o[2])
+			w.R(itoa(ctx.Count()))
+		case "qdel":
+			ctx.Delete(o[1])
+			w.R(itoa(ctx.Count()))
+		case "range":
 			w.R(obsState()...)
 		case "cycle":
 			ctx.Destroy()
